@@ -25,7 +25,8 @@ def projects(draw, max_steps=9, allow_always=True):
     for i in range(nsrc):
         d = draw(st.sampled_from(['', '', 'sub/']))
         sources.append('{}s{}.c'.format(d, i))
-    headers = ['h{}.h'.format(i) for i in range(draw(st.integers(0, 2)))]
+    headers = ['h{}.h'.format(i) for i in range(draw(st.sampled_from(
+        [0, 1, 2, 2, 3])))]
     data = ['d{}.txt'.format(i) for i in range(draw(st.integers(0, 2)))]
     steps = []
     used_obj_sources = set()
@@ -122,6 +123,8 @@ def projects(draw, max_steps=9, allow_always=True):
                     not pch_by_name_used and draw(st.integers(0, 1)) == 0:
                 step['pchname'] = headers[-1]
                 pch_by_name_used = True
+                if not step.get('hdrs') and file_refs('H'):
+                    step['hdrs'] = pick(file_refs('H'), 1, 2)
         elif kind == 'step':
             nout = draw(st.sampled_from([1, 1, 2, 3]))
             step['outs'] = [
